@@ -89,6 +89,38 @@ def gen_rule(rng, length=None, start=None, cache=False, allow_until=True):
     return spec
 
 
+def gen_terminal_rule(rng, cache=True):
+    """An open-ended rule (no COUNT, no UNTIL) that ends anyway, because it
+    starts shortly before the last representable year is over: finite, the
+    end is reached by running out of dates and not by a stated bound."""
+    # (not WEEKLY: when the last week of 9999 reaches into year 10000 the
+    # plain uncached listing itself ends in ValueError instead of stopping,
+    # so there is no list L to compare with -- outside every property here)
+    freq = rng.choice([0, 0, 1, 1, 3, 3, 4])
+    if freq == 0:
+        start = [rng.choice([9960, 9990, 9995, 9999]), rng.randrange(1, 13),
+                 rng.randrange(1, 29), rng.randrange(0, 24), 0, 0]
+    elif freq == 1:
+        start = [rng.choice([9997, 9998, 9999, 9999]), rng.randrange(1, 13),
+                 rng.choice([1, 15, 28, 31]), rng.randrange(0, 24), 0, 0]
+        if start[2] == 31:
+            start[1] = rng.choice([1, 3, 5, 7, 8, 10, 12])
+    elif freq == 2:
+        start = [9999, rng.choice([6, 10, 12]), rng.randrange(1, 29),
+                 rng.randrange(0, 24), 0, 0]
+    elif freq == 3:
+        start = [9999, rng.choice([11, 12, 12]), rng.randrange(1, 31),
+                 rng.randrange(0, 24), 30, 0]
+    else:
+        start = [9999, 12, rng.choice([29, 30, 31]), rng.randrange(0, 24),
+                 0, 0]
+    spec = dict(freq=freq, dtstart=start, interval=rng.choice([1, 1, 2, 3]),
+                cache=bool(cache), terminal=True)
+    if freq >= 2 and rng.random() < 0.25:
+        spec["byweekday"] = sorted(rng.sample(range(7), rng.randrange(1, 4)))
+    return spec
+
+
 def gen_unbounded_rule(rng, cache=True):
     spec = gen_rule(rng, length=1, cache=cache, allow_until=False)
     spec.pop("count", None)
